@@ -23,8 +23,7 @@ def dest_calls(body):
     return [(bi, t) for bi, t in body.calls(lambda c: c.short in DEST_METHODS)]
 
 
-def rule_seek_targets(ctx):
-    R = "C09/seek-targets"
+def rule_seek_targets(ctx, R="C09/seek-targets"):
     n = 0
     for b in ctx.prog.bodies:
         seeks = list(b.calls(lambda c: c.short in ("std::io::Seek::seek", "std::io::Seek::rewind", "std::io::Seek::seek_relative")))
@@ -67,8 +66,7 @@ def rule_seek_targets(ctx):
     ctx.floor(R, "Seek::seek call sites", n, 2)
 
 
-def rule_save_restore(ctx):
-    R = "C09/save-restore"
+def rule_save_restore(ctx, R="C09/save-restore"):
     b = ctx.body(R, DS + "::dump_dir_entry")
     if b is None:
         return
